@@ -529,6 +529,13 @@ func (e *Engine) Start() error {
 
 	err = e.startListeners()
 	if err != nil {
+		// The listeners that were started before the failing one have to go
+		// first: their accept goroutines only end once the shutdown flag is
+		// set, and Stop waits for them.
+		e.acceptMux.Lock()
+		e.shutdown = true
+		e.acceptMux.Unlock()
+		e.stopListeners()
 		e.Engine.Stop()
 		return err
 	}
